@@ -189,6 +189,11 @@ def runOps : Option St → List String → List String
 def runCase (hdr : List String) (ops : List String) : List String :=
   match hdr with
   | ["rb"] => "ok" :: runOps (some St.init) ops
+  -- `heights=<kind>:<seed>`: the Go harness forces the tower heights of the skip list under the
+  -- real RoaringBitmap; the model has no towers (ordered-map interface, C02), so it is ignored here
+  | ["rb", h] =>
+    if h.startsWith "heights=" then "ok" :: runOps (some St.init) ops
+    else "bad-op" :: ops.map fun _ => "bad-op"
   | _ => "bad-op" :: ops.map fun _ => "bad-op"
 
 end Golib.C03
